@@ -370,11 +370,20 @@ pub fn gen_req(r: &mut Rng, tok: &str, o: &ReqOpts) -> Value {
         if r.chance(1, 3) {
             v["chunks"] = json!((0..1 + r.below(4)).map(|_| 1 + r.below(4000)).collect::<Vec<_>>());
         }
+        if len > 0 && r.chance(1, 5) {
+            v["slow"] = gen_slow(r);
+        }
     }
     if o.with_resp && r.chance(3, 4) {
         v["resp"] = gen_resp(r, 20_000);
     }
     v
+}
+
+/// a slow client: the body follows the head after a pause, and arrives in two halves with another pause in between
+/// (from a scheduling hiccup to longer than any timeout the proxy could have; wall-clock seconds tick meanwhile)
+pub fn gen_slow(r: &mut Rng) -> Value {
+    json!({"after_head_ms": *r.pick(&[0u64, 30, 150, 1100, 2500, 10_500, 31_000]), "mid_body_ms": *r.pick(&[0u64, 0, 150, 1100, 10_500])})
 }
 
 pub fn host_name_of(dst: &str) -> &'static str {
@@ -562,7 +571,7 @@ pub fn gen_upstream_faults(r: &mut Rng, steps: &mut Vec<Value>) {
             0 => json!({"f": "status", "status": *r.pick(&[500u64, 502, 503, 429, 404, 410])}),
             1 => json!({"f": "reset_before"}),
             2 => json!({"f": "reset_after"}),
-            3 => json!({"f": "cut", "n": r.below(400)}),
+            3 | 4 => json!({"f": "cut", "n": if r.chance(1, 3) { r.below(400) } else { 150 + r.below(6000) }}),
             _ => json!({"f": "stall", "ms": *r.pick(&[1u64, 5, 50, 500, 3000])}),
         };
         steps.push(json!({"t": "host_fault", "kind": "client", "fault": f}));
@@ -896,6 +905,9 @@ fn gen_c15(seed: u64, r: &mut Rng, procs: Value, tier: &str) -> Value {
                 let mut q = json!({"method": method, "target": target, "headers": [["Host", host_name_of(dst)], ["x-ms-version", "2012-11-30"]], "tok": format!("t{}", tokn), "body": {"len": len, "seed": r.next() >> 8, "ascii": r.chance(1, 2)}});
                 if chunked {
                     q["chunks"] = json!((0..1 + r.below(4)).map(|_| match r.below(4) { 0 => 1 + r.below(16), 1 => 1 + r.below(4096), _ => 4096 + r.below(61_000) }).collect::<Vec<_>>());
+                }
+                if len > 0 && r.chance(1, 5) {
+                    q["slow"] = gen_slow(r);
                 }
                 // the 100 MiB class: in the thorough tier a few runs move the whole body
                 if exempt && tier == "thorough" && !any_huge && r.chance(1, 12) {
